@@ -359,7 +359,7 @@ def run_resume(data, cuts):
     """A push parser whose owner catches EDXML errors and keeps feeding the rest of the input: whatever happens afterwards must
     stay inside the EDXML error family."""
     from edxml import EDXMLPushParser
-    from edxml.error import EDXMLError
+    from edxml.error import EDXMLError, EDXMLEventValidationError, EDXMLOntologyValidationError
 
     class Prs(EDXMLPushParser):
         def _parsed_event(self, event):
@@ -375,10 +375,14 @@ def run_resume(data, cuts):
                 continue
             try:
                 p.feed(data[pos:c])
-            except EDXMLError:
+            except (EDXMLEventValidationError, EDXMLOntologyValidationError):
+                # an event or an ontology element was refused: the XML stream itself is intact, the owner feeds on
                 refused += 1
                 if refused > 20:
                     break
+            except EDXMLError:
+                # the input is not XML any more (or not EDXML at all): there is nothing to go on with
+                break
             pos = c
         try:
             p.close()
